@@ -45,7 +45,7 @@ def plan(tier, seed):
     # instance per shard (state is never restored in between)
     for cp in (14, 15):
         for opc1 in range(8):
-            specs.append(dict(kind='sysregs', seed=seed, shard=len(specs), cp=cp, opc1=opc1, rounds=1 if q else 6))
+            specs.append(dict(kind='sysregs', seed=seed, shard=len(specs), cp=cp, opc1=opc1, rounds=2 if q else 8))
     return specs
 
 
@@ -233,10 +233,24 @@ def sysregs(mon, spec):
         ctxkey = SYS_CTXS[(spec['shard'] + rnd) % len(SYS_CTXS)]
         ctx = mon.ctx(ctxkey)
         ns = 0
-        mode = rng.choice([m for m in ctx.legal_modes(ns) if m not in ('usr', 'hyp')])
-        thumb = rnd % 2 == 1
+        # even rounds: a privileged mode with the access-control registers at their reset values; odd rounds: User mode
+        # (or a privileged one) with every access-control bit flipped (TEECR.XED, CPACR, NSACR, HCPTR, HSTR, ...)
+        flipped = rnd % 2 == 1
+        if flipped and rnd % 4 == 1:
+            mode = 'usr'
+            ns = rng.randrange(2) if ctx.cfg['have_security_ext'] else 0
+        else:
+            mode = rng.choice([m for m in ctx.legal_modes(ns) if m not in ('usr', 'hyp')])
+        thumb = (rnd // 2) % 2 == 1
         desc = scen.prepare(ctx, rng, 't32' if thumb else 'arm', 0xE1A00000, mode=mode, itpos='out', ns=ns)
         cpu = ctx.cpu
+        if flipped:
+            r_ = cpu.registers
+            for name in ('teecr', 'cpacr', 'nsacr', 'hcptr', 'hstr'):
+                reg = getattr(r_, name, None)
+                if reg is not None and hasattr(reg, 'value'):
+                    reg.value = ~reg.value & 0xFFFFFFFF
+            desc['access_controls_flipped'] = True
         tm0 = type_map(cpu)
         home = cpu.registers.cpsr.value
         words = []
@@ -292,7 +306,8 @@ def sysregs(mon, spec):
                     mon.viol[key]['count'] += 1
                     tm0 = tm
                 mon.bump('type_audits')
-        mon.res['nontrivial'].add('sysregs|cp%d|opc1=%d|%s|%s' % (cp, opc1, ctxkey[0], 'thumb' if thumb else 'arm'))
+        mon.res['nontrivial'].add('sysregs|cp%d|opc1=%d|%s|%s|%s|%s' % (cp, opc1, ctxkey[0], 'thumb' if thumb else 'arm', mode,
+                                                                           'flipped' if flipped else 'reset'))
         # the instance must still reset and run ordinary code
         try:
             cpu.take_reset()
@@ -396,7 +411,7 @@ def finish(agg, tier, seed):
         inc.append('too few completed steps')
     if c.get('steps_with_hostile_mmu_setup', 0) < 2000:
         inc.append('too few steps under a hostile MMU set-up (%d)' % c.get('steps_with_hostile_mmu_setup', 0))
-    if c.get('sysreg_steps', 0) < 16 * 4096 or c.get('type_audits', 0) < 500:
+    if c.get('sysreg_steps', 0) < 2 * 16 * 4096 or c.get('type_audits', 0) < 1000:
         inc.append('system-register sweep incomplete (%d steps, %d type audits)' % (c.get('sysreg_steps', 0), c.get('type_audits', 0)))
     return dict(inconclusive=inc, coverage=dict(
         exhaustive_subspaces=['all 2^16 Thumb-16 words x {outside IT, inside, last}',
